@@ -50,6 +50,16 @@ from .dot import node_to_dot
 from .rdf import RDFMapperCallbackType, node_to_rdf
 
 
+def _has_custom_data_id(node: Node) -> bool:
+    """Return true if `node.data_id` is not the default `hash(node.data)`."""
+    try:
+        return node._data_id != hash(node._data)
+    except TypeError:
+        # Unhashable data objects (e.g. a dict) can only be added with an
+        # explicit data_id or a `calc_data_id` callback
+        return True
+
+
 def _index_by_identity(nodes: list, node: Any) -> int:
     """Like ``list.index()``, but compare by identity.
 
@@ -1491,7 +1501,7 @@ class Node:
             "data": str(self.data),
         }
         # Add custom data_id if not calculated to the hash by default.
-        if self._data_id != hash(self._data):
+        if _has_custom_data_id(self):
             res["data_id"] = self._data_id
         res = call_mapper(mapper, self, res)
         # if mapper:
@@ -1522,7 +1532,7 @@ class Node:
     @classmethod
     def _make_list_entry(cls, node: Node) -> dict[str, Any] | str:
         node_data = node._data
-        is_custom_id = node._data_id != hash(node_data)
+        is_custom_id = _has_custom_data_id(node)
 
         # If data is more complex than a simple string, or if we use a custom
         # data_id, we store data as a dict instead of a str:
@@ -1539,7 +1549,7 @@ class Node:
                 # "id": data_id,
             }
         # Add custom data_id if not calculated as hash by default.
-        if node._data_id != hash(node_data):
+        if is_custom_id:
             data["data_id"] = node._data_id
         return data
 
